@@ -7,7 +7,7 @@ from .c01 import r1
 
 def run(ctx):
     r1(ctx)
-    lc.run_family(ctx, ("rw", "window", "invalid", "bits"), 2,
+    lc.run_family(ctx, ("rw", "window", "invalid", "bits", "inject"), 2,
                   "write calls (atomic, slices, members, bits of SINT..LINT, BOOL-array elements and aligned/misaligned ranges, strings "
                   "around capacity, nested structure dicts, value lists shorter/longer than {n}, duplicates) each followed by a read-back; "
                   "memory of the reference target compared byte for byte with the expected image; ledger of executed write services")
